@@ -7,6 +7,7 @@ package tr
 import (
 	"fmt"
 	"math"
+	"reflect"
 	"sort"
 	"strings"
 
@@ -666,6 +667,33 @@ func (t *T) CheckC03(probes []int, literal bool) (*seqx.Viol, Shape) {
 		return v, sh
 	}
 	sh.Depth = leafDepth
+	// references kept outside the root's child links
+	{
+		liveNonzero := 0
+		var cnt func(n *Node)
+		cnt = func(n *Node) {
+			if n == nil {
+				return
+			}
+			for _, k := range n.Keys {
+				if k != 0 {
+					liveNonzero++
+				}
+			}
+			for _, x := range n.Vals {
+				if x != 0 {
+					liveNonzero++
+				}
+			}
+			for _, c := range n.Children {
+				cnt(c)
+			}
+		}
+		cnt(s.Root)
+		if nodes, nonzero := t.reachableSlots(); nonzero != liveNonzero {
+			return viol("c03/garbage-reachable", "%d node objects are reachable from the Map/Set value holding %d non-zero key/value slots, but the %d nodes under the root hold only %d: removed keys or values are still referenced from the live structure", nodes, nonzero, s.Nodes, liveNonzero), sh
+		}
+	}
 	if count != len(t.Model) || s.Size != count {
 		return viol("c03/size", "tree stores %d keys, size field %d, model %d", count, s.Size, len(t.Model)), sh
 	}
@@ -711,6 +739,62 @@ func (t *T) CheckC03(probes []int, literal bool) (*seqx.Viol, Shape) {
 		}
 	}
 	return nil, sh
+}
+
+// reachableSlots walks everything reachable from the Map/Set VALUE by reflection (every pointer,
+// struct, array and slice field, exported or not - not only what the root's child links reach) and
+// returns the number of distinct node objects (structs with a "keys" field) and of non-zero key and
+// value slots in them. Together with the root walk this decides "no longer referenced from the live
+// structure" for references the tree might keep outside its root (free lists, spare nodes, caches).
+func (t *T) reachableSlots() (nodes, nonzero int) {
+	var root reflect.Value
+	if t.Cfg.Set {
+		root = reflect.ValueOf(t.s[0])
+	} else {
+		root = reflect.ValueOf(t.m[0])
+	}
+	seen := map[uintptr]bool{}
+	var walk func(v reflect.Value)
+	walk = func(v reflect.Value) {
+		switch v.Kind() {
+		case reflect.Pointer:
+			if v.IsNil() || seen[v.Pointer()] {
+				return
+			}
+			seen[v.Pointer()] = true
+			walk(v.Elem())
+		case reflect.Interface:
+			if !v.IsNil() {
+				walk(v.Elem())
+			}
+		case reflect.Struct:
+			if f := v.FieldByName("keys"); f.IsValid() {
+				nodes++
+				for _, name := range []string{"keys", "values"} {
+					a := v.FieldByName(name)
+					if !a.IsValid() || (a.Kind() != reflect.Array && a.Kind() != reflect.Slice) {
+						continue
+					}
+					for i := 0; i < a.Len(); i++ {
+						if e := a.Index(i); e.Kind() == reflect.Int && e.Int() != 0 {
+							nonzero++
+						}
+					}
+				}
+			}
+			for i := 0; i < v.NumField(); i++ {
+				walk(v.Field(i))
+			}
+		case reflect.Array, reflect.Slice:
+			if k := v.Type().Elem().Kind(); k == reflect.Pointer || k == reflect.Struct || k == reflect.Interface || k == reflect.Slice || k == reflect.Array {
+				for i := 0; i < v.Len(); i++ {
+					walk(v.Index(i))
+				}
+			}
+		}
+	}
+	walk(root)
+	return
 }
 
 func clamp(n, max int) int {
